@@ -102,3 +102,67 @@ def c10_strict_flag(repo):
     if bad:
         return {"obligations": [{"id": "C10.strict_flag", "status": "failed", "detail": f"decode call sites without strict validation: {bad}"}]}
     return {"obligations": [{"id": "C10.strict_flag", "status": "discharged", "detail": f"{len(sites)} decode call sites, all with validate=true"}]}
+
+
+_LOC_CACHE = {}
+
+
+def locate(repo, name):
+    """best-effort (path, first line, last line) of a function named like `auth::rotate_signers` / `AxelarGateway::approve_messages`"""
+    key = (repo, name)
+    if key in _LOC_CACHE:
+        return _LOC_CACHE[key]
+    base = re.split(r"[\s(/]", name.strip())[0]
+    fn = base.split("::")[-1]
+    hint = base.split("::")[0].lower() if "::" in base else ""
+    best = None
+    roots = [os.path.join(repo, "contracts"), os.path.join(repo, "packages")]
+    if "derived" in name or base.startswith("axelar_soroban_std") or base.startswith("std::"):
+        roots = [os.path.join(repo, "packages", "axelar-soroban-std")]
+    for root in roots:
+        for dp, dn, fns in os.walk(root):
+            if "/src" not in dp + "/" or "/target" in dp or "testdata" in dp:
+                continue
+            for f in fns:
+                if not f.endswith(".rs"):
+                    continue
+                path = os.path.join(dp, f)
+                src = open(path, errors="replace").read()
+                cut = src.find("#[cfg(test)]")
+                body = src if cut < 0 else src[:cut]
+                m = None
+                j = p = -1
+                for mm in re.finditer(r"\bfn\s+" + re.escape(fn) + r"\s*(?:<[^>{;]*>)?\s*\(", body):
+                    jj = body.find("{", mm.end())
+                    kk = body.find(";", mm.end())
+                    if jj < 0 or (0 <= kk < jj):
+                        continue
+                    m, j = mm, jj
+                    break
+                if not m:
+                    continue
+                depth, p = 0, j
+                while p < len(body):
+                    if body[p] == "{":
+                        depth += 1
+                    elif body[p] == "}":
+                        depth -= 1
+                        if depth == 0:
+                            break
+                    p += 1
+                rel = os.path.relpath(path, repo)
+                cand = (rel, body.count("\n", 0, m.start()) + 1, body.count("\n", 0, p) + 1)
+                score = 0
+                h = hint.replace("axelar", "").replace("interchaintokenservice", "interchain-token-service").replace("interchaintoken", "interchain-token")
+                if hint and (hint in rel.lower().replace("-", "").replace("_", "") or (h and h in rel.lower())):
+                    score += 2
+                if f in ("contract.rs", "auth.rs", "abi.rs", "token_handler.rs", "executable.rs", "upgradable.rs", "ownable.rs", "operatable.rs", "token.rs"):
+                    score += 1
+                if f == "contract.rs" and base[:1].isupper() and not base.startswith("AxelarExecutable"):
+                    score += 2
+                if f == "executable.rs" and base.startswith("AxelarExecutable"):
+                    score += 3
+                if best is None or score > best[0]:
+                    best = (score, cand)
+    _LOC_CACHE[key] = best[1] if best else None
+    return _LOC_CACHE[key]
